@@ -326,6 +326,49 @@ theorem C05_witness_noop_traits :
     fin.2.map Prog.result? = [some r200, some r200] ∧ fin.1.rpByUuid 101 = some ⟨2, 101, 201, 4, some 1, 1⟩ := by
   decide
 
+/-- the request carries generation `g` for provider `u`, PUT traits included -/
+def carriesT (u g : Nat) (op : Op R) : Bool :=
+  carries u g op || (match op with
+    | .rpTraitsSet u' g' _ => u' == u && g' == g
+    | _ => false)
+
+theorem carriesT_coq (cfg : Config) {u g : Nat} {op : Op R} (h : carriesT u g op = true) (o : Option Nat)
+    (p : Nat) (ho : ∀ p', o = some p' → p' = p) :
+    CoQ (WRp u o) (CRp (R := R) u p g) (BRp p g) (prog cfg op) := by
+  cases op <;> simp only [carriesT, carries, Bool.and_eq_true, Bool.or_eq_true, beq_iff_eq, decide_eq_true_eq,
+    Bool.false_eq_true, or_false, false_or, or_self] at h
+  · obtain ⟨rfl, rfl⟩ := h; exact pInvSet_coq _ _ _ p ho
+  · obtain ⟨rfl, rfl⟩ := h; exact pInvUpdate_coq _ _ _ p ho
+  · obtain ⟨rfl, rfl⟩ := h; exact pRpTraitsSet_coq _ _ p ho
+  · obtain ⟨⟨rfl, rfl⟩, hmv⟩ := h; exact pAggsSet_coq _ _ hmv _ p ho
+
+/-- **at_most_one_effective_writer_same_generation** (PUT traits included; the `_partial` form of
+`at_most_one_success_same_generation` for PUT traits).  Any pool, any schedule: of the requests
+carrying the same generation `g` for provider `u` - PUT inventories, PUT inventory, PUT aggregates
+>= 1.19 and PUT traits - all but at most one (`k`) leave the state unchanged in EVERY one of their
+scheduling steps.  So a second 2xx answer with the same generation is possible only for a request
+whose write transaction changed nothing (a PUT traits naming the traits the provider already has). -/
+theorem at_most_one_effective_writer_same_generation (cfg : Config) (ops : List (Op R))
+    (hops : ∀ op ∈ ops, isProviderOp op = false) (db : DB R) (hU : Uniq db) (sched : List Nat) (u g : Nat) :
+    ∃ k : Option Nat, ∀ i op, ops[i]? = some op → carriesT u g op = true → some i ≠ k →
+      ∀ pre post, sched = pre ++ i :: post →
+        (Prog.runSched (pre ++ [i]) db (ops.map (prog cfg))).1 = (Prog.runSched pre db (ops.map (prog cfg))).1 := by
+  let p := (rpIdOf db u).getD 0
+  obtain ⟨k, hk⟩ := at_most_one_effective (Q := QEvo (fun _ => True)) (W := WRp u (rpIdOf db u)) (D := RpPast p g)
+    (C := CRp u p g) (B := BRp p g) (fun k => ∃ op, ops[k]? = some op ∧ carriesT u g op = true)
+    (fun s s' q h => h.evo q) (fun s s' q hw hd => hd.evo q hw.1)
+    (fun s _ hc => rpAt_not_past hc.2) (fun s s' _ hb => hb.1)
+    sched db _ (pool_evo cfg ops hops) ⟨ids_of_uniq hU, rfl⟩ (by
+      rintro i ⟨op, hi, hc⟩ q hq
+      rw [List.getElem?_map, hi] at hq
+      cases hq
+      exact carriesT_coq cfg hc _ p (fun p' h => by show p' = (rpIdOf db u).getD 0; rw [h]; rfl))
+  refine ⟨k, fun i op hi hc hne pre post hs => ?_⟩
+  exact quietFor_split pre i post db _ (hs ▸ hk) ⟨op, hi, hc⟩ hne
+
+example : carriesT 101 3 (.rpTraitsSet 101 3 [13, 15] : Op Nat) = true ∧
+    carriesT 101 3 (.invSet 39 101 3 [] : Op Nat) = true := by decide
+
 theorem traits_at_most_one_full_false : ¬ traits_at_most_one_full := by
   intro h
   have := h Wf.exCfg [.rpTraitsSet 101 3 [13, 15], .rpTraitsSet 101 3 [13, 15]] Wf.exDb [1, 1, 0, 0, 0, 1] 101 3 0 1
